@@ -404,15 +404,16 @@ int main(int argc, char** argv) {
             printf("< size=%zu str=", n); puthex(g.ptr, real); printf("\n");
             gfree(g);
         }
-        else if (!strcmp(op, "decode") || !strcmp(op, "decodex")) {
+        else if (!strcmp(op, "decode") || !strcmp(op, "decodex") || !strcmp(op, "decoden")) {
             bool ex = op[6] == 'x';
+            bool nolang = op[6] == 'n';   /* lang_out = NULL (documented as optional) */
             int k = SLOT(1); unsigned coin = (unsigned)NUM(2);
             int li = ex ? (int)NUM(3) : -1;
             size_t n = unhex(ARG(ex ? 4 : 3), hbuf, sizeof hbuf);
             if (memchr(hbuf, 0, n)) die("NUL inside string");
             if (ex && (li < 0 || li >= polyseed_get_num_langs())) { printf("> skip\n"); continue; }
             if (g_slot[k]) { printf("> skip\n"); continue; }
-            if (ex) printf("> decodex %u %d ", coin, li); else printf("> decode %u ", coin);
+            if (ex) printf("> decodex %u %d ", coin, li); else printf("> %s %u ", nolang ? "decoden" : "decode", coin);
             puthex(hbuf, n); printf("\n");
             guard g = gstr(hbuf, n);
             polyseed_data* s = (polyseed_data*)(uintptr_t)0x5EED;
@@ -420,7 +421,7 @@ int main(int argc, char** argv) {
             polyseed_status st;
             g_in_lib = true;
             if (ex) st = polyseed_decode_explicit((char*)g.ptr, (polyseed_coin)coin, polyseed_get_lang(li), &s);
-            else st = polyseed_decode((char*)g.ptr, (polyseed_coin)coin, &lo, &s);
+            else st = polyseed_decode((char*)g.ptr, (polyseed_coin)coin, nolang ? NULL : &lo, &s);
             g_in_lib = false;
             if (memcmp(g.ptr, hbuf, n) || g.ptr[n] != 0) printf("! decode modified its input\n");
             if (st == POLYSEED_OK) g_slot[k] = s;
